@@ -61,6 +61,7 @@ JOBS = {
         ("c_fp", "CCond", "CCond_mc.cfg", 1, None, None, {}),        # ?: with constant / run-time condition, mixed integer / floating arms
         ("a_cp", "CCopy", "CCopy_mc.cfg", 1, None, None, {}),        # assignment of 1..8-byte structs / unions through subscripts
         ("n_sc", "CScope", "CScope_mc.cfg", 1, None, None, {}),      # typedef names hidden by objects / parameters of inner scopes
+        ("u_bi", "CBuiltin", "CBuiltin_mc.cfg", 2, None, None, {}),  # __builtin_{add,sub,mul}_overflow, __builtin_expect
         ("s_d2", "CStmt", "CStmt_mc.cfg", 2, None, None, {}),        # statement trees depth <= 2, <= 5 nodes
         ("s_sim", "CStmt", "CStmt_sim.cfg", 2, 4000, 60, {}),        # statement trees depth <= 3, <= 14 nodes
     ],
@@ -81,6 +82,8 @@ JOBS = {
         ("c_fp", "CCond", "CCond_mc.cfg", 1, None, None, {}),
         ("a_cp", "CCopy", "CCopy_mc.cfg", 1, None, None, {}),
         ("n_sc", "CScope", "CScope_mc.cfg", 1, None, None, {}),
+        ("u_bi", "CBuiltin", "CBuiltin_t.cfg", 4, None, None, {}),
+        ("u_bif", "CBuiltin", "CBuiltin_tf.cfg", 4, None, None, {}),
         ("s_d2", "CStmt", "CStmt_mc.cfg", 2, None, None, {}),
         ("s_d3", "CStmt", "CStmt_t.cfg", 8, None, None, {}),
         ("s_sim", "CStmt", "CStmt_sim.cfg", 8, 40000, 60, {}),
@@ -98,6 +101,8 @@ M64 = (1 << 64) - 1
 
 PRELUDE = """#include <stdio.h>
 #include <string.h>
+#include <stdarg.h>
+void *alloca(unsigned long);
 #define TN(e) _Generic((e), _Bool:"B", char:"c", signed char:"sc", unsigned char:"uc", short:"s", unsigned short:"us", \\
   int:"i", unsigned:"u", long:"l", unsigned long:"ul", long long:"ll", unsigned long long:"ull", float:"f", double:"d", long double:"ld", default:"?")
 #define U64(e) ((unsigned long long)(e))
@@ -722,6 +727,8 @@ K_ANDSWAP = "cexpr:crash:gen_O2_zero_extension_of_and_with_constant_first"
 K_BFALIAS = "cexpr:bitfield:bool_member_initialiser_alias"
 K_ADDR = "cexpr:local:narrow_object_stored_through_pointer_then_read"
 K_LOSTCOPY = "cstmt:gen_O2:postincrement_loop_test_lost_copy"
+K_OVF_MIXED = "cbuiltin:overflow:operand_type_differs_from_result_type"
+K_OVF_VALUE = "cbuiltin:overflow:value_of_call_unset_on_overflow"
 K_SIZEOF_INT = "cscope:sizeof_expression_has_type_int"
 K_DECL_TU = "cdecl:tentative_array_of_unknown_size_completed_by_another_declaration"
 K_INIT_OVR = "cinit:static:later_initialiser_of_same_scalar_ignored"
@@ -755,6 +762,15 @@ def classify(fails):
             continue
         if c["fam"] == "gen":
             # `sizeof expression` has type int in c2mir (size_t for `sizeof (type-name)`): only the printed type name differs
+            if c["gfam"] == "builtin" and not c["sig"].startswith("expect") and ctx == "T":
+                # c2mir does the operation in the type of *r on the raw operands (wrong flag / value when an operand has another
+                # type) and leaves the value of the call unset when it overflows (only `if (__builtin_..._overflow (...))` works)
+                if not c["same"]:
+                    keyed.append((K_OVF_MIXED, r))
+                    continue
+                if fields == ["field0"] and c["sig"].endswith(("cv", "rv")) and ef[0] == "1":
+                    keyed.append((K_OVF_VALUE, r))
+                    continue
             if c["gfam"] == "scope" and c["sig"].startswith("sz:obj_") and fields == ["field0"] and ef[0] == "ul" and got[0] == "i":
                 keyed.append((K_SIZEOF_INT, r))
             else:
@@ -873,7 +889,7 @@ def gen_cases(jobs, stats, maxpar=None):
         tot_distinct += r.distinct
         stats.cnt["tlc_wall_s"] += int(r.wall)
         fam = {"CStmt": "stmt", "CInit": "init", "CBytes": "bytes", "CDecl": "decl", "CCond": "gen", "CCopy": "gen",
-               "CScope": "gen"}.get(kw["module"], "expr")
+               "CScope": "gen", "CBuiltin": "gen"}.get(kw["module"], "expr")
         for o in r.outs:
             if "u" in o:
                 stats.cnt["dropped_%s_%s" % (fam, o["u"] if isinstance(o["u"], str) else "undefined")] += 1
